@@ -319,9 +319,20 @@ func c19Run(r *core.Run) {
 		}
 		rot.GetCollateral, rot.CheckCrl = cfgCollateral, cfgCrl
 	}
-	// flag side
+	// flag side.  In half of the runs the flag names its bundles by paths relative to the working directory, and
+	// the config file (if any) lives in another directory that holds files of the same names with OTHER
+	// contents: a path given on the command line means what it means in the working directory
+	relFlags := t.Bool()
+	flagA, flagC := bundleA, bundleC
+	if relFlags {
+		flagA, flagC = "rootA.pem", "rootC.pem"
+		os.MkdirAll(filepath.Join(dir, "conf"), 0o700)
+		write(filepath.Join("conf", "rootA.pem"), C.Root.PEM())
+		write(filepath.Join("conf", "rootC.pem"), w.A.Root.PEM())
+		r.Probe("relative_flag_paths_with_config_elsewhere")
+	}
 	flagRoots := ""
-	fr := t.Draw(7)
+	fr := t.Draw(8)
 	if !allow(1) {
 		fr = fr % 4
 		if !useConfig {
@@ -330,18 +341,27 @@ func c19Run(r *core.Run) {
 	}
 	switch fr {
 	case 6: // only a foreign root: replaces whatever paths the config lists
-		args = append(args, "-trusted_roots", bundleC)
+		args = append(args, "-trusted_roots", flagC)
 		flagRoots = "C"
 		if strings.Contains(rootsListed, "A") && len(rot.CabundlePaths) > 0 {
 			r.Probe("flag_roots_replace_config_paths")
 		}
 	case 0, 1, 2:
 	case 3:
-		args = append(args, "-trusted_roots", bundleA)
+		args = append(args, "-trusted_roots", flagA)
 		flagRoots = "A"
 	case 4:
-		args = append(args, "-trusted_roots", bundleC+" , "+bundleA)
+		args = append(args, "-trusted_roots", flagC+" , "+flagA)
 		flagRoots = "AC"
+	case 7: // a directory where a bundle file is expected (empty, or holding the root under another extension)
+		d := filepath.Join(dir, "roots.d")
+		os.MkdirAll(d, 0o700)
+		if t.Bool() {
+			write(filepath.Join("roots.d", "root.cer"), w.A.Root.PEM())
+		}
+		args = append(args, "-trusted_roots", d)
+		flagRoots = "broken"
+		r.Probe("trusted_roots_flag_names_a_directory")
 	case 5:
 		args = append(args, "-trusted_roots", filepath.Join(dir, "nope.pem"))
 		flagRoots = "broken"
@@ -641,6 +661,9 @@ func c19Run(r *core.Run) {
 			configCorrupt = true
 			note("config corrupted")
 		}
+		if relFlags {
+			name = filepath.Join("conf", name)
+		}
 		args = append(args, "-config", write(name, cb))
 		note("config=%s sub-absent=%q", name, subAbsent)
 	}
@@ -765,7 +788,8 @@ func c19Run(r *core.Run) {
 		r.Fault("net:"+netKind, netKind != "honest")
 	}
 	note("net=%s", netKind)
-	args = append(args, "-timeout", "150ms", "-max_retry_delay", "30ms")
+	// the retry settings do not change what a download failure is: timeout / delay of zero or a nanosecond are legal
+	args = append(args, "-timeout", []string{"150ms", "150ms", "40ms", "0", "1ns"}[t.Draw(5)], "-max_retry_delay", []string{"30ms", "30ms", "1ms", "0", "1ns"}[t.Draw(5)])
 
 	// ---- run the tool
 	cmd := exec.Command(bin, args...)
